@@ -93,12 +93,13 @@ prop("C09", "exploration",
      "accepted/rejected, length bucket); non-trivial = all",
      [{"name": "c09", "cmd": "c09", "shards": {"quick": 12, "thorough": 16}, "crash_is_violation": True, "timeout": {"quick": 900, "thorough": 3000}},
       {"name": "c09-asan", "cmd": "c09", "shards": 12, "tiers": ["thorough"], "run_tier": "quick", "build": "asan", "tag": "asan", "crash_is_violation": True, "args": {"thorough": {"cpulimit": 60}}, "timeout": {"thorough": 3000}},
+      {"name": "c09-ovf", "cmd": "c09", "shards": 12, "tiers": ["thorough"], "run_tier": "quick", "build": "ovf", "tag": "ovf", "crash_is_violation": True, "timeout": {"thorough": 3000}},
       {"name": "c09-miri", "cmd": "miri", "runner": "miri", "inputs": 80, "shards": 16, "tiers": ["thorough"], "tag": "miri", "timeout": {"thorough": 3000}},
       {"name": "c09-valgrind", "cmd": "c09", "wrap": "valgrind", "shards": 12, "tiers": ["thorough"], "run_tier": "quick", "args": {"thorough": {"pct": 3, "cpulimit": 900}}, "tag": "valgrind", "timeout": {"thorough": 3400}}],
      {"quick": 300000, "thorough": 3000000},
      ["armored inputs are kept below ~20 kB (base58 decoding is quadratic; bounded by the size limit, so not a violation, but too slow to sweep)",
       "child-index (derivation counter) bumps are not counted as wallet state for the 'rejected input leaves state untouched' clause",
-      "the verdict build is the release profile: arithmetic that only traps with debug assertions is not judged"],
+      "the quick verdict build is the release profile; arithmetic on outside data that overflows (a panic in builds with overflow checks, a wrapped value in the released one) is looked for by the thorough tier's ovf slice (release + -C overflow-checks=on)"],
      required_hist=["rejected:armor_decode", "accepted:deser_slatepack+decrypt+get_slate", "rejected:foreign-rpc:body", "rejected:owner-rpc:plaintext-body", "rejected:wallet.seed(open_wallet)", "rejected:get_stored_tx(file)"])
 
 HIST_RULE = ("random interleaved histories over 2 wallets x 2 accounts with up to 3-4 slates in flight (sends, late-locked sends, invoices, "
@@ -240,7 +241,8 @@ prop("C07", "exploration",
      "destination account, reply with only the recipient's signed entry, second delivery refused without effect. distinct = (call kind, outcome, transport, "
      "records added); non-trivial = all",
      [{"name": "c07", "cmd": "c07", "shards": {"quick": 12, "thorough": 16}, "crash_is_violation": True},
-      {"name": "c07-asan", "cmd": "c07", "shards": 12, "tiers": ["thorough"], "run_tier": "quick", "build": "asan", "tag": "asan", "crash_is_violation": True, "timeout": {"thorough": 3000}}],
+      {"name": "c07-asan", "cmd": "c07", "shards": 12, "tiers": ["thorough"], "run_tier": "quick", "build": "asan", "tag": "asan", "crash_is_violation": True, "timeout": {"thorough": 3000}},
+      {"name": "c07-ovf", "cmd": "c07", "shards": 12, "tiers": ["thorough"], "run_tier": "quick", "build": "ovf", "tag": "ovf", "crash_is_violation": True, "timeout": {"thorough": 3000}}],
      {"quick": 2500, "thorough": 30000},
      ["id and derivation counters may advance on a refused call (they reserve nothing)",
       "a validly counter-signed reply to an own slate is C02's domain and is not sent here"],
